@@ -16,6 +16,7 @@ from pyvc.rewrite import LoopSpec
 from pyvc import heap as H
 
 LEVEL = "proof"
+STANDIN_ALWAYS_THOROUGH = True      # its large bound takes seconds: used at both tiers
 EXPLANATION = ("fork_processes proved for every worker count n >= 1, every restart budget and every history of "
                "fork/wait outcomes (unbounded): loop 1 starts ids 0..n-1 once each (bijection pid<->id); loop 2 invariant: one live "
                "incarnation per id, every id live or exited normally, restarts within budget; per-iteration clauses: unknown pids change "
